@@ -117,7 +117,17 @@ def classify(version, metric, text):
                 return ("accept", v)
     stripped = text.strip()  # unicode-aware: everything any str.strip() could remove
     stripped_ascii = text.strip(_ASCII_WS)
-    for cand in (stripped, stripped_ascii):
+    # invisible padding a lenient reader might also drop: separators, control and format characters
+    # (NBSP, zero-width space, byte-order mark, ...) at either end
+    import unicodedata
+
+    a, b = 0, len(text)
+    while a < b and unicodedata.category(text[a]) in ("Zs", "Zl", "Zp", "Cc", "Cf"):
+        a += 1
+    while b > a and unicodedata.category(text[b - 1]) in ("Zs", "Zl", "Zp", "Cc", "Cf"):
+        b -= 1
+    stripped_invisible = text[a:b]
+    for cand in (stripped, stripped_ascii, stripped_invisible):
         if cand != text:
             if cand == "":
                 return ("either", sp.nd) if sp.nd in legal else ("refuse", None)
